@@ -2,6 +2,7 @@ import Zrnt.Beacon.Spec.Epoch
 import Zrnt.Beacon.Impl.Altair
 import Zrnt.Beacon.Impl.Final
 import Zrnt.Beacon.Impl.Phase0
+import Zrnt.Beacon.Impl.Resolve
 /-!
 # Code-shaped model `M` of the places where zrnt's epoch processing is shaped differently from the spec
 
@@ -212,9 +213,14 @@ def altairAttesterData (cfg : Config) (s : State) : AltairAttesterData :=
 /-- `epc.TotalActiveStake` / `TotalActiveStakeSqRoot` as `loadCurrentStake` computes them -/
 def epcTotalActiveStake (cfg : Config) (flats : List Validator) (currentEpoch : Nat) : Nat := totalActiveStake cfg flats currentEpoch
 
+/-- `phase0.ComputeEpochAttesterData`: the pending attestations of the previous and of the current epoch are resolved
+through the epochs context (`epc.GetBeaconCommittee` + `FilterParticipants`, `Impl.resolveAttsCtx`), not by
+`get_beacon_committee`; `Proofs/Lemmas/C02Committee.lean` (`resolve_attestations_live`) proves the two agree. -/
 def phase0AttesterData (cfg : Config) (s : State) : SM Phase0AttesterData := do
-  pure (computeEpochAttesterDataPhase0 cfg s.validators (get_previous_epoch cfg s)
-    (← resolve_attestations cfg s (get_previous_epoch cfg s)) (← resolve_attestations cfg s (get_current_epoch cfg s)))
+  let epc ← Ctx.liftRes (liveCtx cfg s)
+  let prevAtts ← resolveAttsCtx cfg epc s (get_previous_epoch cfg s) s.previous_epoch_attestations
+  let currAtts ← resolveAttsCtx cfg epc s (get_current_epoch cfg s) s.current_epoch_attestations
+  pure (computeEpochAttesterDataPhase0 cfg s.validators (get_previous_epoch cfg s) prevAtts currAtts)
 
 /-- phase0 `ProcessEpochRewardsAndPenalties` -/
 def rewardsPhase0M (cfg : Config) (s : State) : SM State := do
